@@ -69,6 +69,8 @@ def strat(draw, tier):
     spec['quick_estimate'] = draw(st.sampled_from([False, False, False, True]))
     # estimate(run_bootstrap=True) with a few replications, then the SAME object is used again
     spec['bootstrap'] = (not spec['quick_estimate']) and draw(st.sampled_from([0, 0, 0, 2, 3]))
+    # an iteration limit that the main run may hit (estimation continued later)
+    spec['max_iterations'] = draw(st.sampled_from([500, 500, 500, 2, 3])) if spec['bootstrap'] else 500
     return spec
 
 
@@ -76,7 +78,7 @@ def _arr(x):
     return None if x is None else np.asarray(x, dtype=float).tolist()
 
 
-def _new_biogeme(spec, algorithm):
+def _new_biogeme(spec, algorithm, no_bootstrap=False):
     import biogeme.biogeme as bio
     from biogeme.parameters import Parameters
 
@@ -88,8 +90,8 @@ def _new_biogeme(spec, algorithm):
     params.set_value(name='optimization_algorithm', value=algorithm)
     params.set_value(name='number_of_threads', value=1)
     params.set_value(name='tolerance', value=1e-7)
-    params.set_value(name='max_iterations', value=500)
-    if spec.get('bootstrap'):
+    params.set_value(name='max_iterations', value=int(spec.get('max_iterations', 500)))
+    if spec.get('bootstrap') and not no_bootstrap:
         params.set_value(name='bootstrap_samples', value=int(spec['bootstrap']))
     the = bio.BIOGEME(build.build_database(ec.table_of(spec)), formulas, parameters=params)
     the.modelName = 'verif_c07'
@@ -130,6 +132,15 @@ def _observe(spec):
         sim_ = the.simulate(one['beta'])
         one['same_object_sim'] = np.asarray(sim_['log_like'], dtype=float).tolist()
         one['bootstrap_shape'] = None if r.data.bootstrap is None else list(np.asarray(r.data.bootstrap).shape)
+        if spec.get('bootstrap'):
+            # the same estimation without bootstrapping (fresh object): what is reported about the main run must not differ
+            twin, _ = _new_biogeme(spec, algo, no_bootstrap=True)
+            np.random.seed(spec['data_seed'] % 1000)
+            rt = twin.estimate()
+            msg = lambda m: {k_: str(v_) for k_, v_ in (m or {}).items() if 'time' not in k_.lower()}
+            one['twin'] = dict(convergence=bool(rt.data.convergence), beta={n: float(v) for n, v in zip(rt.data.betaNames, rt.data.betaValues)},
+                               logLike=float(rt.data.logLike), messages=msg(rt.data.optimizationMessages))
+            one['messages'] = msg(r.data.optimizationMessages)
         one['has_converged'] = bool(r.algorithm_has_converged())
         free = loglike.dict_of_elementary_expression(T.FREE_BETA)
         fixed = loglike.dict_of_elementary_expression(T.FIXED_BETA)
@@ -169,7 +180,8 @@ def judge(spec) -> Outcome:
         well = True
     out.classes += [f'bounds={spec["bounds_kind"]}', 'active_at_optimum' if active.any() else 'interior_optimum',
                     'well_conditioned' if well else 'ill_conditioned', f'free={k}',
-                    'quick_estimate' if spec['quick_estimate'] else 'estimate', 'bootstrap' if spec.get('bootstrap') else 'no_bootstrap']
+                    'quick_estimate' if spec['quick_estimate'] else 'estimate', 'bootstrap' if spec.get('bootstrap') else 'no_bootstrap',
+                    f'max_iterations={spec.get("max_iterations", 500)}']
     res = isolate.call(_observe, spec, timeout=600)
     if not res['ok']:
         out.fail(f'raises:{res["exc_type"]}', f'estimation harness raised {res["exc_type"]}: {res["exc_msg"][:300]}')
@@ -207,6 +219,15 @@ def judge(spec) -> Outcome:
         ll_rows = ref.per_obs(x)[0]
         if len(one['same_object_sim']) != len(ll_rows) or not np.all(np.abs(np.asarray(one['same_object_sim']) - ll_rows) <= 1e-9 * (1 + np.abs(ll_rows))):
             out.fail(f'{algo}:same_object_simulate{tag}', f'after the estimation simulate() of the same object returns {one["same_object_sim"][:4]}..., the per-observation values at the estimates are {ll_rows[:4].tolist()}...' + where)
+        if 'twin' in one:
+            tw = one['twin']
+            if tw['beta'] != one['beta'] or tw['logLike'] != one['logLike']:
+                out.fail(f'{algo}:bootstrap_changes_estimates', f'estimates with bootstrapping {one["beta"]} (log likelihood {one["logLike"]!r}), '
+                                                                f'without {tw["beta"]} ({tw["logLike"]!r})' + where)
+            elif tw['convergence'] != one['convergence'] or tw['messages'] != one['messages']:
+                out.fail(f'{algo}:bootstrap_changes_diagnostics',
+                         f'with bootstrapping the run reports convergence={one["convergence"]}, {one["messages"]}; the same estimation without '
+                         f'bootstrapping reports convergence={tw["convergence"]}, {tw["messages"]}' + where)
         if spec.get('bootstrap') and one['bootstrap_shape'] != [int(spec['bootstrap']), k]:
             out.fail(f'{algo}:bootstrap_shape', f'bootstrap sample of shape {one["bootstrap_shape"]}')
         L0 = ref.loglike(np.array(one['x0']))
